@@ -173,6 +173,15 @@ partial def elabStmts (ps : PS) (inst : Nat) (stmts : List Stmt) (env : List (St
          let (e', idx) := addNode e1 inst { lbl := key, kind := .errmsg, ins := [{ r with port := .err, passive := false }] }
          elabStmts ps inst rest ((key, ⟨inst, idx, .main, none⟩) :: env) e' fbs
        | none => ({ e with err := true }, env))
+    | "errtsv" =>   -- errtsv a depth values : exception_time_series with explicit ErrorCaptureOptions
+      (match a 0 with
+       | some r =>
+         let e1 := { e with capt := (r.inst, r.idx) :: e.capt }
+         let hasIns := !(((e.insts.getD r.inst { nodes := [] }).nodes.getD r.idx { lbl := "", kind := .sink }).ins.isEmpty)
+         let v := num 2 != 0 && num 1 != 0 && hasIns
+         let (e', idx) := addNode e1 inst { lbl := key, kind := .errmsgv v, ins := [{ r with port := .err, passive := false }] }
+         elabStmts ps inst rest ((key, ⟨inst, idx, .main, none⟩) :: env) e' fbs
+       | none => ({ e with err := true }, env))
     | "fbsrc" =>
       let init := if st.args.length ≥ 2 then parseInt (st.args.getD 1 "0") else none
       let (e', idx) := addNode e inst { lbl := "#feedback_source", kind := .fbsrc init }
